@@ -724,13 +724,21 @@ impl G {
 
     /// Why a content is outside the documented format (root-cause class for signatures).
     pub fn reject_reason(&self, s: &str) -> String {
-        if s.chars().any(|c| !c.is_ascii()) {
-            return "nonascii".into();
-        }
-        if s.chars()
-            .any(|c| c.is_ascii_control() && c != '\n' && c != '\r')
-        {
-            return "control-char".into();
+        // a foreign character is the reason only when it is the sole defect: the same content with plain
+        // letters in its place must be acceptable; otherwise the other defect names the class (an extra
+        // line that happens to hold a non-ASCII character is an extra line)
+        let foreign = |c: char| !c.is_ascii() || (c.is_ascii_control() && c != '\n' && c != '\r');
+        if s.chars().any(foreign) {
+            let plain: String = s.chars().map(|c| if foreign(c) { 'A' } else { c }).collect();
+            let r = self.reject_reason(&plain);
+            if r != "none" {
+                return r;
+            }
+            return if s.chars().any(|c| !c.is_ascii()) {
+                "nonascii".into()
+            } else {
+                "control-char".into()
+            };
         }
         let t = s.replace("\r\n", "\n");
         if t.is_empty() {
@@ -1502,7 +1510,9 @@ fn balance() -> G {
 fn party_b() -> G {
     // [/1!a][/34x] + [35x] : at least one of the two
     alt(vec![
-        seq(vec![G::PartyId, G::Nl, upto(Cls::X, 35)]),
+        // (a location that itself begins with a slash is not generated: after a party line it is
+        // indistinguishable from a second party line)
+        seq(vec![G::PartyId, G::Nl, G::NoLeadSlash35()]),
         G::PartyId,
         G::NoLeadSlash35(),
     ])
